@@ -41,6 +41,7 @@ TEXT = {
     "interlacing": "Cauchy interlacing: Ritz values of a Hermitian matrix on an orthonormal subspace are >= the exact ones",
     "trace-eigs": "trace of a Hermitian matrix equals the sum of its eigenvalues",
     "gaussian-moments": "int_0^inf x^(2k) exp(-a x^2) dx closed forms; Gaussian Fourier/Hankel transforms",
+    "erf-coulomb": "FT[-Z erf(a r)/r](G) = -4 pi Z exp(-G^2/(4 a^2))/G^2; its finite part at G -> 0 is pi Z / a^2",
     "sphere-moments": "monomial integrals over the unit sphere",
     "sylvester-injective": "X S + S X = 0 with S Hermitian positive definite implies X = 0",
     "perm-sum": "finite sums are invariant under permutation of the summands",
